@@ -40,7 +40,7 @@ DEFAULTS: Dict[str, Any] = dict(
     max_depth=3, ops_per_step=(2, 5), big_corr=False, autograd=False, bwd_annotation=True, step_gap=(0, 1, 1, 7),
     pre_ops=1, post_ops=1, first_step=None, file_order="time", p_plain_rt=0.08, kernel_durs=(0, 1, 5, 20, 60),
     launch_lat=(0, 0, 1, 3, 10), queue_lat=(0, 0, 1, 5, 40), device_pid=0, repeat_names=False, annotation_nest=False,
-    p_leaf_children=(0, 3), ops_pool=None, p_unlaunched=0.0, sync_straddle=False, source_counters=False, outer_frame=False,
+    p_leaf_children=(0, 3), ops_pool=None, p_unlaunched=0.0, sync_straddle=False, source_counters=False, outer_frame=False, corr_zero=False,
 )
 
 
@@ -57,7 +57,7 @@ class Sim:
         self.rank = p["rank"]
         self.ev: List[Dict[str, Any]] = []
         # CUPTI correlation ids are unsigned 32-bit counters: big ids reach beyond 2^31
-        self.corr = self.r.choice([self.r.randint(2 ** 20, 2 ** 30), 2 ** 31 - self.r.randint(1, 40), self.r.randint(2 ** 31, 2 ** 32 - 5000)]) if p["big_corr"] else self.r.randint(0, 50)
+        self.corr = self.r.choice([self.r.randint(2 ** 20, 2 ** 30), 2 ** 31 - self.r.randint(1, 40), self.r.randint(2 ** 31, 2 ** 32 - 5000)]) if p["big_corr"] else self.r.randint(1, 50)
         self.host_pid = 4000 + self.rank
         self.streams = self.r.sample(STREAM_IDS, p["n_streams"])
         self.free_at = {s: 0 for s in self.streams}
@@ -71,6 +71,7 @@ class Sim:
         self.truth: Dict[str, List[Any]] = {"stream_sync": [], "ctx_sync": [], "event_sync": [], "stream_wait": [], "launch": []}
         self.ops_pool = p["ops_pool"] or (OPS[:3] if p["repeat_names"] else OPS)
         self.helper = {"t": 0, "tid": self.host_pid + 7, "streams": self.streams}
+        self.used_zero = False
 
     # ------------------------------------------------------------------ helpers
     def d(self, lo: int, hi: int) -> int:
@@ -92,6 +93,8 @@ class Sim:
         p = self.p
         s = self.r.choice(th["streams"])
         c = self.newcorr()
+        if p["corr_zero"] and not self.used_zero and self.r.random() < 0.25:
+            c, self.used_zero = 0, True          # correlation id 0 is a legal id (counters start there)
         ts = th["t"]
         dur = max(1, self.d(2, 9))
         rname = {"k": self.r.choice(LAUNCH_K), "cpy": "cudaMemcpyAsync", "set": "cudaMemsetAsync"}[kind]
@@ -407,7 +410,7 @@ def random_params(rnd: random.Random, tier: str, **over: Any) -> Dict[str, Any]:
         big_corr=rnd.random() < 0.3, autograd=rnd.random() < 0.3, bwd_annotation=rnd.random() < 0.6,
         pre_ops=rnd.choice([0, 1, 2]), post_ops=rnd.choice([0, 1, 2]),
         file_order=rnd.choice(["time", "time", "grouped", "shuffled"]), repeat_names=rnd.random() < 0.3,
-        annotation_nest=rnd.random() < 0.3, p_unlaunched=rnd.choice([0.0, 0.0, 0.1]), sync_straddle=rnd.random() < 0.3, source_counters=rnd.random() < 0.25, outer_frame=rnd.random() < 0.2,
+        annotation_nest=rnd.random() < 0.3, p_unlaunched=rnd.choice([0.0, 0.0, 0.1]), sync_straddle=rnd.random() < 0.3, source_counters=rnd.random() < 0.25, outer_frame=rnd.random() < 0.2, corr_zero=rnd.random() < 0.3,
     )
     if p["autograd"]:
         p["n_threads"] = max(2, p["n_threads"])
